@@ -24,6 +24,16 @@ CLAIMED = {
    note='Trusted: Coq kernel; hand-written fold models in Model/Select.v tied by a differential run (all short lists over a 12-route lattice with duplicates and ties, sampled permutations of multisets of 4-6, random lists) plus an oracle checking the statement on the implementation answers. With MED enabled only best-is-min-helper is claimed (no weak order).',
    technique='Coq proof by induction over the candidate list with a three-part invariant; permutation argument; differential correspondence',
    design='5/C11'),
+ 'C05': dict(
+   text='Machine-checked proof (Coq 8.16): for every well-formed NLRI value of the 13 families, with or without a path id, and any following octets, decode(encode v ++ rest) = (v, rest) consuming exactly the encoding; the length reported before encoding equals the octets produced; a concatenation of encodings of any length decodes to exactly the original sequence in order (induction over the list). No bound on label depth, body size or list length beyond what the wire format can express (wf_nlri).',
+   note='Trusted: Coq kernel; hand-written Model/Nlri.v (codecs, Labels::parse, FlowSpec component walk, Prefix::new host-bit check as a predicate on octets, NlriIter), tied by a differential run: every prefix length x bit patterns x families x ADD-PATH, label depths, length-encoding edges, concatenations, plus truncated/mutated/random octets (outcome classes compared). u8 arithmetic in the overflow-checking profile.',
+   technique='Coq proof: round-trip by structural lemmas per family + induction over the NLRI list; differential correspondence on reference encodings',
+   design='5/C05'),
+ 'C14': dict(
+   text='Machine-checked proof (Coq 8.16): for all NLRI values of the 26 variants the ordering (a lexicographic key mirroring each Ord impl, variant index first) is a total order given a total order on prefixes, cmp = Equal iff ==, == is Leibniz equality of the value (so buffer-type independent) and implies equal hash input, and two ADD-PATH NLRI are == iff path id and NLRI proper are equal.',
+   note='Trusted: Coq kernel; Model/NlriOrd.v field orders and hash-input layout (hand-written, tied by a differential run over identical / one-component-differs / triple / cross-variant pairs with a recording Hasher and three buffer types). inetnum Prefix::cmp is a hypothesis of the theorems (external crate); its executable model is compared with the crate on every pair and the order laws are checked on the crate.',
+   technique='Coq proof: lexicographic-list total preorder lemma + key injectivity; differential correspondence incl. recorded hash inputs',
+   design='5/C14'),
 }
 
 PENDING = {}
